@@ -661,7 +661,8 @@ func hclFilesOp(d dialect, a dsch) *op {
 
 // richDoc is a document that uses what a multi-tenant project uses: input variables, locals,
 // for_each, two schemas with a table of the same name in both (qualified references) and, for
-// PostgreSQL, an enum. It drives the evaluator's variable / reference / block-registry maps.
+// PostgreSQL, an enum; the locals read one another up to three levels deep (an object inside an
+// object of another local), so that only the dependency edges make their evaluation order safe. It drives the evaluator's variable / reference / block-registry maps.
 const richDoc = `
 variable "tenants" {
   type    = list(string)
@@ -673,7 +674,11 @@ variable "size" {
 }
 locals {
   prefix = "p"
-  width  = 7
+  cfg    = { db = { width = 7, name = "n" }, audit = { who = "who" } }
+  width  = local.cfg.db.width
+  limits = { w = local.width, n = local.cfg.db.name }
+  who    = local.cfg.audit.who
+  deep   = local.limits.w + local.cfg.db.width
 }
 schema "s1" {}
 schema "s2" {}
@@ -729,6 +734,9 @@ table "audit" {
   }
   column "who" {
     type = int
+  }
+  column "d" {
+    type = varchar(local.deep)
   }
   foreign_key "who_fk" {
     columns     = [column.who]
